@@ -46,6 +46,27 @@ VC_ASSIGNS(__CPROVER_object_upto(hash, RLC_MD_LEN))
 __CPROVER_ensures(vc_h32(hash) == (len == VC_SEEDLEN ? __CPROVER_uninterpreted_sha256_55(vc_bev(msg, len)) : __CPROVER_uninterpreted_sha256_56(vc_bev(msg, len))))
 ;
 
+/* frame view of the hash for the hash_df paths (arbitrary message length): writes the 32-byte digest only */
+void md_map_sh256_frame(uint8_t *hash, const uint8_t *msg, size_t len)
+__CPROVER_requires(len <= 4096)
+__CPROVER_requires(__CPROVER_is_fresh(hash, RLC_MD_LEN))
+__CPROVER_requires(__CPROVER_is_fresh(msg, len))
+VC_ASSIGNS(__CPROVER_object_upto(hash, RLC_MD_LEN))
+;
+#ifndef VC_SEED_MAX
+#define VC_SEED_MAX 40
+#endif
+extern const void *__CPROVER_alloca_object;     /* CBMC's model of alloca() records the last stack allocation here */
+/* (re)seed: an empty seed is refused and the state is untouched; otherwise the state is re-derived (hash_df, abstract here),
+   the prefix byte is 0, and the reseed counter restarts at 1 - also on a RESEED */
+void rand_seed(uint8_t *buf, size_t size)
+__CPROVER_requires(size <= VC_SEED_MAX && (g_ctx.seeded == 0 || g_ctx.seeded == 1))
+__CPROVER_requires(__CPROVER_is_fresh(buf, size))
+__CPROVER_requires(size > 0 || g_may_throw)
+VC_ASSIGNS(__CPROVER_alloca_object, __CPROVER_object_upto(g_ctx.rand, sizeof(g_ctx.rand)), g_ctx.counter, g_ctx.seeded, g_ctx.code, g_ctx.last, g_ctx.error, g_ctx.number, g_thrown)
+__CPROVER_ensures(size == 0 ==> (g_ctx.code == RLC_ERR && g_ctx.counter == __CPROVER_old(g_ctx.counter) && g_ctx.seeded == __CPROVER_old(g_ctx.seeded) && VC_V == VC_V_OLD && VC_C == VC_C_OLD))
+__CPROVER_ensures(size > 0 ==> (g_ctx.code == __CPROVER_old(g_ctx.code) && g_ctx.counter == 1 && g_ctx.seeded == 1 && g_ctx.rand[0] == 0))
+;
 #ifndef VC_GEN_MAX
 #define VC_GEN_MAX (1 << 16)
 #endif
